@@ -15,7 +15,8 @@ Odd      == [BaseState EXCEPT !.limits = {[denom |-> MINT, amt |-> 0], [denom |-
                               !.pairs = {[d |-> "d1", t |-> T1, denom |-> "MINT_FOLD"], [d |-> "d1", t |-> T2, denom |-> "EMPTY"]},
                               !.attesters = {A("k1"), A("junk1"), [key |-> "k2", sp |-> "0X"]}, !.threshold = 3,
                               !.owner = "a2", !.pending = "a2"]
-MCInit == {BaseState, EmptyReg, Paused, Odd}
+NoAtt    == [BaseState EXCEPT !.attesters = {}]        \* a genesis without attesters: nothing can be received or replaced
+MCInit == {BaseState, EmptyReg, Paused, Odd, NoAtt}
 
 Addrs  == {"a1", "a2", "EMPTY", "GARBAGE", "WRONG_PREFIX", "BAD_CHECKSUM", "NON_ASCII", "zero", "MODULE"}
 Amts   == {ABSENT, -1, 0, 1, 3}
